@@ -96,8 +96,11 @@ def evaluate(ctx, cases):
     from .. import astdump
 
     reqs, meta = [], []
+    compiled_once = {}      # a query is compiled once and the compiled object reused for every document and filter context
     for c in cases:
-        o = qeval.compile_outcome(c["text"])
+        if c["text"] not in compiled_once:
+            compiled_once[c["text"]] = qeval.compile_outcome(c["text"])
+        o = compiled_once[c["text"]]
         if "err" in o:
             ctx.violation("a documented extension spelling must compile", {"text": c["text"]}, o, "compiles")
             continue
